@@ -9,7 +9,7 @@
 #        sync builds take nothing from the trace; for defer/mixed builds only WHICH tasks complete at WHICH hook is read from it.
 # Oracle O (independent of the model): the per-task protocol automaton of enginelib.protocol_check on the implementation trace
 #        (create at most once per build, start/prior/provide/avail/complete order, inputsAvailable exactly once).
-import os, random
+import os, random, time
 import vlib, enginelib as E, enginechk as K
 
 SCHEDS = [None, lambda r: "defer:%d" % r.randint(0, 999), lambda r: "mixed:%d" % r.randint(0, 999)]
@@ -78,7 +78,15 @@ class Sess:
 
 def one_history(chk, sess, lines, tag, origin, expect=None):
     wd = os.path.join(TMP, tag)
-    rc, out, err, sp, tp = E.run_impl(sess.drv, lines, wd, env=ENV)
+    for attempt in range(6):
+        try:
+            rc, out, err, sp, tp = E.run_impl(sess.drv, lines, wd, env=ENV)
+            break
+        except (PermissionError, OSError):
+            # another check is relinking the shared driver binary at this moment: wait for it
+            if attempt == 5:
+                raise
+            time.sleep(5)
     if rc != 0:
         chk.violation("driver-crash", "engine_driver exited with status %s" % rc, dict(scenario=lines, stderr=err[-2000:], origin=origin), found_input=True,
                       broken="memory safety of the engine across builds (e.g. rules left IsScanning by a build that returned success)")
